@@ -283,28 +283,51 @@ func H_prec() {
 		}
 		envs = append(envs, v)
 	}
-	// command line: the value 0, 1 or 2 times
+	// command line: the value 0, 1 or 2 times; payloads are arbitrary bytes (an option
+	// value is written attached with '=', or as a separate token when it may be)
 	ncli := vChoice("ncli", 3)
 	var cli []string
 	for i := 0; i < ncli; i++ {
 		p := vNondetString("cli", cliLen)
-		vAssume(len(p) > 0)
+		if asOpt && t == tBool {
+			vAssume(len(p) > 0) // a flag takes a value only in the attached form
+		}
 		cli = append(cli, p)
 	}
 	var argv []string
 	if asOpt {
 		for _, p := range cli {
-			argv = append(argv, "--xx="+p)
+			separate := false
+			if len(p) == 0 {
+				separate = true
+			} else if t != tBool && p[0] != '-' && vChoice("separate", 2) == 1 {
+				separate = true
+			}
+			if separate {
+				argv = append(argv, "--xx", p)
+			} else {
+				argv = append(argv, "--xx="+p)
+			}
 		}
 	} else {
 		argv = append([]string{"--"}, cli...)
 	}
 
-	stdErr = vDiscard{}
+	buf := &vBuf{}
+	stdErr = buf
 	stdOut = vDiscard{}
-	exiter = func(code int) { panic(vExitPanic{code}) }
+	exits, exitCode := 0, 0
+	exiter = func(code int) {
+		exits++
+		exitCode = code
+		panic(vExitPanic{code})
+	}
 	app := App("app", "")
-	app.ErrorHandling = flag.ContinueOnError
+	policy := flag.ContinueOnError
+	if check == "C07" {
+		policy = []flag.ErrorHandling{flag.ContinueOnError, flag.ExitOnError, flag.PanicOnError}[vChoice("policy", 3)]
+	}
+	app.ErrorHandling = policy
 	var user bool
 	read := vDeclareTyped(app, t, asOpt, def, strings.Join(envNames, " "), &user)
 	if asOpt {
@@ -312,9 +335,11 @@ func H_prec() {
 	} else {
 		app.Spec = "[X...]"
 	}
-	ran := 0
+	ran, hooks := 0, 0
 	var got []vVal
 	gotUser := false
+	app.Before = func() { hooks++ }
+	app.After = func() { hooks++ }
 	app.Action = func() {
 		ran++
 		got = read()
@@ -322,16 +347,48 @@ func H_prec() {
 	}
 	var err error
 	var rec interface{}
+	exited := false
 	func() {
-		defer func() { rec = recover() }()
+		defer func() {
+			if r := recover(); r != nil {
+				if _, ok := r.(vExitPanic); ok {
+					exited = true
+					return
+				}
+				rec = r
+			}
+		}()
 		err = app.Run(append([]string{"app"}, argv...))
 	}()
-	vAssert(rec == nil, "Run panicked")
+	if check != "C07" {
+		vAssert(rec == nil, "Run panicked")
+	}
 
 	want, wantUser, accepted, defAfterInvalid := vRefValue(t, cli, envs, def)
 	vObserve("ran", ran)
 	vObserve("err", err != nil)
 	vObserve("accepted", accepted)
+	if check == "C07" {
+		// conversion errors are rejections: nothing runs, error + usage are printed, the policy is followed
+		if !accepted {
+			vCover("unparsable-cli-value")
+			vAssert(ran == 0 && hooks == 0, "C07: an Action or interceptor ran although a value is not convertible to its type")
+			vAssert(strings.HasPrefix(buf.s, "Error: "), "C07: the error is not written first to the error stream")
+			vAssert(strings.Contains(buf.s, "\nUsage: app "+app.Spec+"\n"), "C07: the usage of the rejecting command is not written to the error stream")
+			switch policy {
+			case flag.ContinueOnError:
+				vAssert(err != nil && !exited && rec == nil, "C07: ContinueOnError must return a non-nil error and nothing else")
+			case flag.ExitOnError:
+				vAssert(exited && exits == 1 && exitCode == 2 && rec == nil, "C07: ExitOnError must exit once with status 2")
+			case flag.PanicOnError:
+				_, isErr := rec.(error)
+				vAssert(rec != nil && isErr && !exited, "C07: PanicOnError must panic with the error")
+			}
+		} else {
+			vAssert(ran == 1 && hooks == 2 && err == nil && !exited && rec == nil, "C07: an accepted invocation must return nil and neither exit nor panic")
+		}
+		return
+	}
 	if !accepted {
 		vCover("unparsable-cli-value")
 		if check == "C13" {
